@@ -9,7 +9,7 @@
    registered and timers fired, barrier registered), [LApp] = its result (the event, or a timer fired
    by that watermark) was applied to state by a handler call, [LCkpt cid snap] = the DKV checkpoint of
    id cid was taken with content snap and reported. *)
-From RV Require Import Model.Align Proofs.C02_Align.
+From RV Require Import Model.Align Proofs.C02_Data Proofs.C02_Align.
 From Coq Require Import List NArith Bool Arith.
 Import ListNotations.
 Open Scope N_scope.
@@ -78,7 +78,8 @@ Theorem barrier_id_checked : forall c x s cid cur m x',
   log (dt x') = LAct (s, length (nth s (sent x) [])) (IBar cid) false :: log (dt x).
 Proof.
   intros c x s cid cur m x' Hck Hmode Hne Hstep.
-  unfold step in Hstep. rewrite Hmode in Hstep. destruct (active (dt x)); [discriminate|]. injection Hstep as <-.
+  unfold step in Hstep. destruct (failed x); [discriminate|]. rewrite Hmode in Hstep.
+  destruct (active (dt x)); [discriminate|]. injection Hstep as <-.
   unfold handle_item. rewrite Hck.
   destruct (cid =? cur) eqn:E; [apply N.eqb_eq in E; contradiction|].
   cbn. repeat split; reflexivity.
@@ -96,19 +97,13 @@ Qed.
 Print Assumptions cancel_is_inert.
 
 (* a runner's SourceComplete does not change which barriers a checkpoint waits for *)
-Lemma active_flush tok y : active (flush tok y) = active y.
-Proof.
-  assert (Hf : forall l0 z, active (fold_left apply_item l0 z) = active z).
-  { induction l0 as [|b0 l0 IH]; intros z; cbn; auto. rewrite IH. reflexivity. }
-  unfold flush. destruct (batch y); auto.
-  destruct (match tok with None => true | Some t => t =? btoken y end); auto. cbn [set_fault active]. rewrite Hf. reflexivity.
-Qed.
 Theorem source_complete_keeps_alignment : forall c x s x',
   nth_error (modes x) s = Some (Passed IDone) -> step c x (Handle s) = Some x' ->
   ckpt x' = ckpt x /\ done x' = done x /\
   (active (dt x') = remove_nat s (active (dt x)) \/ active (dt x') = active (dt x)).
 Proof.
-  intros c x s x' Hm H. cbn in H. rewrite Hm in H. destruct (active (dt x)) as [|a l] eqn:Ea; [discriminate|].
+  intros c x s x' Hm H. unfold step in H. destruct (failed x); [discriminate|]. rewrite Hm in H.
+  destruct (active (dt x)) as [|a l] eqn:Ea; [discriminate|].
   injection H as <-. unfold handle_item. cbn [ckpt done dt]. repeat split.
   destruct (errored _ _); [right|left]; cbn [set_active active]; rewrite active_flush; cbn [push_log active]; rewrite Ea; reflexivity.
 Qed.
@@ -126,8 +121,8 @@ Qed.
 Print Assumptions deploy_resets_alignment.
 
 (* processEventBatch applies timers and state mutations before it writes to the sink: an armed sink fault
-   changes nothing of what a flush applies, logs, leaves pending or stores as timers (so the pre-checkpoint
-   flush, whose error handleCheckpointBarrier ignores, loses nothing) *)
+   changes nothing of what a flush applies, logs, leaves pending or stores as timers (the error only decides
+   replies - and, on the flush in front of the cut, that no checkpoint is taken) *)
 Lemma fold_apply_set_fault f l z : fold_left apply_item l (set_fault f z) = set_fault f (fold_left apply_item l z).
 Proof. revert z; induction l as [|b l IH]; intros z; cbn [fold_left]; auto. rewrite <- IH. reflexivity. Qed.
 Theorem sink_fault_keeps_state : forall tok y f,
@@ -150,8 +145,8 @@ Theorem failed_timeout_flush_stops : forall c x x', step c x TimeoutFail = Some 
   log (dt x') = log (dt x) /\ applied (dt x') = applied (dt x) /\
   (stopped (dt x') = true \/ batch (dt x') = batch (dt x)).
 Proof.
-  intros c x x' H. cbn in H. destruct (sinkfault (dt x) || stopped (dt x)); [discriminate|].
-  destruct (inflight (dt x)); [discriminate|]. destruct (batch (dt x)) eqn:Eb.
+  intros c x x' H. unfold step in H. destruct (sinkfault (dt x) || stopped (dt x) || failed x); [discriminate|].
+  destruct (inflight (dt x)); [discriminate|]. cbn zeta in H. destruct (batch (dt x)) eqn:Eb.
   - injection H as <-. cbn. try rewrite Eb. auto.
   - destruct (_ =? _); injection H as <-; cbn; try rewrite Eb; auto.
 Qed.
@@ -160,20 +155,69 @@ Print Assumptions failed_timeout_flush_stops.
 Theorem stopped_operator_is_silent : forall c x a x', stopped (dt x) = true -> step c x a = Some x' ->
   log (dt x') = log (dt x) /\ applied (dt x') = applied (dt x) /\ stopped (dt x') = true.
 Proof.
-  intros c x a x' Hs H. unfold stopped in *. destruct (active (dt x)) eqn:Ea; [|discriminate].
-  destruct a; cbn in H.
-  - destruct (nth_error (modes x) s) as [[| |]|]; try discriminate. injection H as <-. cbn. rewrite Ea. auto.
-  - destruct (nth_error (modes x) s) as [[|g it|]|]; try discriminate. destruct (g <? done x); [|discriminate].
-    injection H as <-. cbn. rewrite Ea. auto.
-  - rewrite Ea in H. destruct (nth_error (modes x) s) as [[| |]|]; discriminate.
-  - destruct (armed (dt x)); [|discriminate]. injection H as <-. cbn. rewrite Ea. auto.
-  - unfold stopped in H. rewrite Ea, orb_true_r in H. discriminate.
-  - destruct (nth_error (modes x) s) as [[| |]|]; try discriminate. injection H as <-. rewrite Ea. auto.
-  - destruct (sinkfault (dt x)); [discriminate|]. injection H as <-. cbn. rewrite Ea. auto.
-  - unfold stopped in H. rewrite Ea in H. rewrite !andb_false_r in H. discriminate.
-  - unfold stopped in H. rewrite Ea, orb_true_r in H. discriminate.
+  intros c x a x' Hs H. pose proof Hs as Hs'. unfold stopped in Hs'. destruct (active (dt x)) eqn:Ea; [|discriminate].
+  destruct a; unfold step in H.
+  - destruct (failed x); [discriminate|].
+    destruct (nth_error (modes x) s) as [[| |]|]; try discriminate. injection H as <-. cbn. auto.
+  - destruct (failed x); [discriminate|].
+    destruct (nth_error (modes x) s) as [[|g it|]|]; try discriminate. destruct (g <? done x); [|discriminate].
+    injection H as <-. cbn. auto.
+  - destruct (failed x); [discriminate|]. rewrite Ea in H. destruct (nth_error (modes x) s) as [[| |]|]; discriminate.
+  - destruct (armed (dt x)); [|discriminate]. injection H as <-. cbn. unfold stopped. cbn. rewrite Ea. auto.
+  - rewrite Hs, orb_true_r in H. discriminate.
+  - destruct (nth_error (modes x) s) as [[| |]|]; try discriminate. injection H as <-. auto.
+  - destruct (sinkfault (dt x)); [discriminate|]. injection H as <-. cbn. unfold stopped. cbn. rewrite Ea. auto.
+  - rewrite Hs in H. rewrite !andb_false_r in H. discriminate.
+  - rewrite Hs, orb_true_r in H. discriminate.
+  - destruct (failed x); [discriminate|]. rewrite Ea in H.
+    destruct (nth_error (modes x) s) as [[| |[| | |]]|]; discriminate.
 Qed.
 Print Assumptions stopped_operator_is_silent.
+
+(* The flush in front of db.Checkpoint may fail (the user handler, or the sink): then the barrier's closure returns
+   that error with every barrier registered, nothing is cut or reported, the completion count stays, and - for a
+   handler failure - the batch Flush had taken out is gone. The operator is then [failed]: only Deploy leads on.
+   consistent_cut is unaffected: a failed cut adds no record. *)
+Theorem failed_cut_records_nothing : forall c hf x s cid,
+  failed x = false -> failed (handle_item c hf x s (IBar cid)) = true ->
+  done (handle_item c hf x s (IBar cid)) = done x /\
+  forall c0 snap, In (LCkpt c0 snap) (log (dt (handle_item c hf x s (IBar cid)))) -> In (LCkpt c0 snap) (log (dt x)).
+Proof.
+  intros c hf x s cid Hnf Hf. unfold handle_item in *. unfold failed in Hnf.
+  set (o := (s, length (nth s (sent x) []))) in *.
+  assert (Hfl : forall d0 c0 snap, In (LCkpt c0 snap) (log (flush None d0)) -> In (LCkpt c0 snap) (log d0)).
+  { intros d0 c0 snap Hin. destruct (flush_cases None d0) as [E|(_ & E & _)]; rewrite E in Hin; auto.
+    apply in_app_or in Hin. destruct Hin as [Hin|[Hin|Hin]]; auto; [|discriminate].
+    apply in_rev, in_map_iff in Hin. destruct Hin as (? & ? & _). discriminate. }
+  destruct (ckpt x) as [[cur m]|] eqn:Ec.
+  - destruct (cid =? cur); cbn [negb] in *.
+    + destruct (remove_nat s m) as [|r m'].
+      * destruct (hf && _).
+        -- cbn. split; auto. intros c0 snap [H|H]; [discriminate|auto].
+        -- destruct (errored _ _); [|discriminate]. cbn [done dt]. split; auto.
+           intros c0 snap Hin. apply Hfl in Hin. destruct Hin as [H|H]; [discriminate|auto].
+      * discriminate.
+    + cbn in Hf. destruct m; discriminate.
+  - rewrite N.eqb_refl in *. cbn [negb] in *.
+    destruct (remove_nat s (seq 0 (n_senders c))) as [|r m'].
+    + destruct (hf && _).
+      * cbn. split; auto. intros c0 snap [H|H]; [discriminate|auto].
+      * destruct (errored _ _); [|discriminate]. cbn [done dt]. split; auto.
+        intros c0 snap Hin. apply Hfl in Hin. destruct Hin as [H|H]; [discriminate|auto].
+    + discriminate.
+Qed.
+Print Assumptions failed_cut_records_nothing.
+
+(* a failed operator only moves on by a redeploy *)
+Theorem failed_operator_waits_for_redeploy : forall c x a x', failed x = true -> step c x a = Some x' ->
+  a = Deploy \/ (log (dt x') = log (dt x) /\ applied (dt x') = applied (dt x) /\ ckpt x' = ckpt x).
+Proof.
+  intros c x a x' Hf H. destruct a; unfold step in H; try rewrite Hf in H; try rewrite !orb_true_r in H; try discriminate; auto; right.
+  - destruct (armed (dt x)); [|discriminate]. injection H as <-. cbn. auto.
+  - destruct (nth_error (modes x) s) as [[| |]|]; try discriminate. injection H as <-. auto.
+  - destruct (sinkfault (dt x)); [discriminate|]. injection H as <-. cbn. auto.
+Qed.
+Print Assumptions failed_operator_waits_for_redeploy.
 
 (* ---------- non-vacuity: enabled schedules with parked senders, a pending batch at the last barrier,
    two consecutive checkpoints, a rejected barrier, a time-out flush ---------- *)
@@ -194,10 +238,10 @@ Example ex_parks : option_map (fun x => nth_error (modes x) 0) (exec ex_cfg (ini
 Proof. vm_compute. reflexivity. Qed.
 
 (* a redeployment in the middle of an alignment: the barrier runner 0 delivered before it does not count; the checkpoint
-   with the reused id is taken only after runner 0 delivered it again; a sink fault armed for the pre-checkpoint flush *)
+   with the reused id is taken only after runner 0 delivered it again *)
 Definition ex_acts2 : list action :=
   [Gate 0 (IBar 7); Handle 0; Deploy; Gate 1 (IEv 1 1 0); Handle 1; Gate 1 (IBar 7); Handle 1;
-   Gate 0 (IEv 2 1 0); Handle 0; Fault; Gate 0 (IBar 7); Handle 0].
+   Gate 0 (IEv 2 1 0); Handle 0; Gate 0 (IBar 7); Handle 0].
 Example ex_redeploy :
   option_map (fun x => map (fun e => match e with LCkpt c (a, _) => Some (c, length a) | _ => None end)
                            (filter (fun e => match e with LCkpt _ _ => true | _ => false end) (log (dt x))))
@@ -212,4 +256,17 @@ Example ex_timeout_fail :
              (exec ex_cfg (init ex_cfg) [Gate 0 (IEv 1 1 0); Handle 0; TimerFire; TimeoutFail; Gate 0 (IBar 1)])
     = Some (true, [], [LAct (0%nat, 0%nat) (IEv 1 1 0) true])
   /\ exec ex_cfg (init ex_cfg) [Gate 0 (IEv 1 1 0); Handle 0; TimerFire; TimeoutFail; Gate 0 (IBar 1); Handle 0] = None.
+Proof. split; vm_compute; reflexivity. Qed.
+
+(* the handler fails on the flush in front of the cut: no checkpoint, the operator waits for its redeploy; after it the
+   checkpoint with the reused id contains exactly the new assembly's pre-barrier events *)
+Example ex_failed_cut :
+  option_map (fun x => (failed x, batch (dt x), filter (fun e => match e with LCkpt _ _ => true | _ => false end) (log (dt x))))
+             (exec ex_cfg (init ex_cfg) [Gate 0 (IEv 1 1 0); Handle 0; Gate 0 (IBar 1); Handle 0; Gate 1 (IBar 1); HandleFail 1])
+    = Some (true, [], [])
+  /\ option_map (fun x => map (fun e => match e with LCkpt c (a, _) => Some (c, length a) | _ => None end)
+                           (filter (fun e => match e with LCkpt _ _ => true | _ => false end) (log (dt x))))
+             (exec ex_cfg (init ex_cfg) [Gate 0 (IEv 1 1 0); Handle 0; Gate 0 (IBar 1); Handle 0; Gate 1 (IBar 1); HandleFail 1;
+                                        Deploy; Gate 0 (IEv 2 1 0); Handle 0; Gate 0 (IBar 1); Handle 0; Gate 1 (IBar 1); Handle 1])
+    = Some [Some (1, 1%nat)].
 Proof. split; vm_compute; reflexivity. Qed.
